@@ -78,7 +78,10 @@ class Gen:
         return ('fail',) if r.chance(1, 3) else ('skip',)
 
     def block(self, depth, in_call, kids):
-        return ('seq', [self.stmt(depth, in_call, kids) for _ in range(self.r.range(1, 3))])
+        xs = [self.stmt(depth, in_call, kids) for _ in range(self.r.range(1, 3))]
+        if len(xs) == 1 and xs[0][0] != 'seq' and self.r.chance(1, 2):
+            return xs[0]            # a branch / loop body that is not a 'seq' is printed WITHOUT braces
+        return ('seq', xs)
 
     def stmt(self, depth, in_call, kids):
         r = self.r
@@ -86,7 +89,11 @@ class Gen:
             return self.leaf(in_call)
         k = r.below(20)
         if k < 5: return self.leaf(in_call)
-        if k < 8: return ('if', self.pure_cond(in_call), self.block(depth - 1, in_call, kids), self.block(depth - 1, in_call, kids))
+        if k < 8:
+            if r.chance(1, 3):      # unbraced then-branch that is a conditional macro: `if (c) PT_EXIT_ON(x); else ...` must keep its else
+                then = r.choice([('exiton', self.pure_cond(in_call)), ('failon', self.pure_cond(in_call)), self.leaf(in_call)])
+                return ('if', self.pure_cond(in_call), then, self.block(depth - 1, in_call, kids))
+            return ('if', self.pure_cond(in_call), self.block(depth - 1, in_call, kids), self.block(depth - 1, in_call, kids))
         if k < 12: return self.loop(depth, in_call, kids)
         if k < 18 and kids > 0:
             j = r.below(10)
@@ -233,17 +240,23 @@ class Emit:
             out = ts[-1]
             for t in reversed(ts[:-1]): out = 'seq %s %s' % (t, out)
             return out
+        # a branch / loop body that is a 'seq' is a braced block; any other statement is printed as the UNBRACED
+        # single statement (`if (c)\n\tPT_EXIT_ON(x);\nelse\n\tEFF(1);`): legal C for the real macros, the macro is still
+        # alone on its line, and the program as written (= the model's) gives the `else` to the `if` printed here.
+        # Every `if` is printed with its `else`, so no dangling else exists in the text itself.
         if k in ('if', 'childok'):
-            self.put(p + ('if (PT_CHILD_OK()) {' if k == 'childok' else 'if %s {' % c_cond(s[1])))
+            ba, bb = s[-2][0] == 'seq', s[-1][0] == 'seq'
+            self.put(p + ('if (PT_CHILD_OK())' if k == 'childok' else 'if %s' % c_cond(s[1])) + (' {' if ba else ''))
             a = self.stmt(s[-2], ind + 1, kids)
-            self.put(p + '} else {')
+            self.put(p + ('} ' if ba else '') + 'else' + (' {' if bb else ''))
             b = self.stmt(s[-1], ind + 1, kids)
-            self.put(p + '}')
+            if bb: self.put(p + '}')
             return ('childok %s %s' % (a, b)) if k == 'childok' else 'if %s %s %s' % (m_cond(s[1]), a, b)
         if k == 'while':
-            self.put(p + 'while %s {' % c_cond(s[1]))
+            bb = s[2][0] == 'seq'
+            self.put(p + 'while %s' % c_cond(s[1]) + (' {' if bb else ''))
             b = self.stmt(s[2], ind + 1, kids)
-            self.put(p + '}')
+            if bb: self.put(p + '}')
             return 'while %s %s' % (m_cond(s[1]), b)
         if k == 'yield': return 'yield %d' % self.put(p + 'PT_YIELD();')
         if k == 'wait': return 'wait %d' % self.put(p + 'PT_WAIT();')
@@ -425,6 +438,8 @@ def reductions(s):
         for i in range(len(xs)):
             if xs[i][0] == 'seq':               # flatten
                 yield ('seq', xs[:i] + xs[i][1] + xs[i + 1:])
+        if len(xs) == 1 and xs[0][0] != 'seq':
+            yield xs[0]                         # as a branch / loop body: the same statement without braces
         for i in range(len(xs)):
             for y in reductions(xs[i]):
                 yield ('seq', xs[:i] + [y] + xs[i + 1:])
@@ -537,6 +552,11 @@ def features(s, ctxs=(), out=None):
         out.add(k + '-in-loop')
     if k in ('wu', 'exiton', 'failon', 'if', 'while') and has_side_effect(s[1]):
         out.add(k + '-side-effecting-cond')
+    if k in ('if', 'childok'):
+        for br, nm in ((s[-2], 'then'), (s[-1], 'else')):
+            if br[0] != 'seq': out.add('unbraced-%s:%s' % (nm, br[0]))
+    if k == 'while' and s[2][0] != 'seq':
+        out.add('unbraced-loop-body:' + s[2][0])
     if k == 'seq':
         for x in s[1]: features(x, ctxs, out)
     elif k in ('if', 'childok'):
@@ -561,8 +581,10 @@ def small_bodies():
     atoms = list(leaves)
     for a in leaves:
         atoms.append(('while', ('not', ('incmod', 9, 1)), ('seq', [a, ('eff', 2)])))
+        atoms.append(('while', ('not', ('incmod', 9, 1)), a))                     # unbraced loop body
         for b in leaves:
-            atoms.append(('if', ('odd', 1), a, b))
+            atoms.append(('if', ('odd', 1), a, b))                                 # unbraced branches
+            atoms.append(('if', ('odd', 1), ('seq', [a]), ('seq', [b])))           # braced
             for k in ('spawn', 'spawnck', 'call'):
                 atoms.append((k, ('seq', [a, b])))
             atoms.append(('seq', [('spawn', ('seq', [a, b])), ('childok', ('eff', 3), ('eff', 4))]))
